@@ -307,10 +307,28 @@ func (h *handler) processUnaryRpc(
 	rpc *goatorepo.Rpc,
 ) *goatorepo.Rpc {
 	ctx, cancel, err := contextFromHeaders(clientCtx, rpc.GetHeader())
-	if err != nil {
-		log.Panic().Err(err).Msg("Server: failed to get context from headers")
-	}
 	defer cancel()
+	if err != nil {
+		// Peer-controlled input must not crash the server: fail this RPC only.
+		log.Error().Err(err).Msg("Server: failed to get context from headers")
+		respHeader := &goatorepo.RequestHeader{
+			Method:      rpc.Header.Method,
+			Source:      rpc.Header.Destination,
+			Destination: rpc.Header.Source,
+		}
+		if len(rpc.Header.ProxyRecord) > 1 {
+			respHeader.ProxyNext = rpc.Header.ProxyRecord[0 : len(rpc.Header.ProxyRecord)-1]
+		}
+		return &goatorepo.Rpc{
+			Id:     rpc.GetId(),
+			Header: respHeader,
+			Status: &goatorepo.ResponseStatus{
+				Code:    int32(codes.Internal),
+				Message: fmt.Sprintf("invalid request metadata: %v", err),
+			},
+			Trailer: &goatorepo.Trailer{},
+		}
+	}
 
 	var appErr error
 	fullMethod := fmt.Sprintf("/%s/%s", info.name, md.MethodName)
